@@ -163,7 +163,7 @@ def check_builders(ctx):
             layouts[(f.where, key)] = ent
         if not per_sink:
             raise AnalysisError('%s: no row append found' % f.where)
-    ctx.floor('R-SHAPE', n_sinks, 17, 'row append sites')
+    ctx.floor('R-SHAPE', n_sinks, 12, 'row append sites')
     return layouts
 
 
